@@ -114,7 +114,8 @@ def build_system(spec):
             fn = lambda lab: 0.0
         v = S.ndarray_for(letters, ITEMS, fn, "C")
         name = f"F{k+1}"
-        flows[name] = flodym.Flow(from_process=procs[PROC_NAMES[src]], to_process=procs[PROC_NAMES[dst]], name=name, dims=ds, values=v)
+        # "alias_keys": the flows dict is keyed by short aliases that differ from the flows' names
+        flows[f"K{k+1}" if spec.get("alias_keys") else name] = flodym.Flow(from_process=procs[PROC_NAMES[src]], to_process=procs[PROC_NAMES[dst]], name=name, dims=ds, values=v)
         mflows.append((name, src, dst, R.build(letters, ITEMS, fn)))
     stocks, mstocks = {}, []
     for k, (proc, arr, kind) in enumerate(spec.get("stocks", [])):
@@ -362,6 +363,15 @@ def run_straddle_case(spec, which, pos, factor, raise_error, zero_tol=False):
     want = expect_verdict(abs(factor) > 1 or (zero_tol and factor != 0.0), raise_error)
     if got != want:
         return fail("verdict", f"-> {got} ({str(info)[:160]}), expected {want} (default tolerance {tol})")
+    if factor != 0.0 and not zero_tol and "F2" in mfa.flows:
+        # check_flows works with the same default tolerance: an entry of -4 x tolerance is flagged, -0.25 x not
+        f2 = mfa.flows["F2"]
+        idx2 = np.unravel_index(pos % max(1, f2.values.size), f2.values.shape) if f2.values.shape else ()
+        f2.values[idx2] = -abs(factor) * tol
+        st, info2, recs = with_capture(lambda: mfa.check_flows(raise_error=False))
+        flagged = any("F2" in r for r in recs)
+        if st == "raised" or flagged != (abs(factor) > 1):
+            return fail("flagged-set", f"check_flows with an F2 entry at -{abs(factor)} x default tolerance ({tol}): flagged={flagged} ({st} {recs}), expected {abs(factor) > 1}")
     return "straddle-" + want, None
 
 
@@ -418,7 +428,7 @@ def run_straddle(u, res):
     for fi, flows in enumerate(straddle_specs(u["nproc"])):
         if fi % u["parts"] != u["part"]:
             continue
-        for sc, lvl in (([], 7.0), ([[1, "tp", "balanced"]], 7.0), ([[1, "tp", "balanced"]], 1.0e6)):
+        for sc, lvl in (([], 7.0), ([[1, "tp", "balanced"]], 7.0), ([[1, "tp", "balanced"]], 1.0e6), ([[None, "tp", "balanced"]], 1.0e6), ([[None, "t", "gen"], [1, "tp", "balanced"]], 3.0e5)):
             spec = dict(nproc=u["nproc"], flows=flows, stocks=sc, stock_level=lvl)
             for factor in (0.25, 4.0, -0.25, -4.0, 0.0):
                 for raise_error in (True, False):
@@ -458,7 +468,7 @@ def run_flows_case(spec, states, exceptions, raise_error, verbose):
     expected = set()
     for k, (fl, stt) in enumerate(zip(spec["flows"], states)):
         name = f"F{k+1}"
-        f = mfa.flows[name]
+        f = mfa.flows[f"K{k+1}" if spec.get("alias_keys") else name]
         idx = tuple((k + 1) % n for n in f.values.shape)
         if stt == "nan":
             f.values[idx] = np.nan
@@ -489,7 +499,7 @@ def run_flows_case(spec, states, exceptions, raise_error, verbose):
     for msg in recs:
         head = msg.split("\n")[0]  # (verbose mode lists the offending items on further lines)
         for k in range(len(spec["flows"])):
-            if _re.search(rf"(?<![A-Za-z0-9_])F{k+1}(?![A-Za-z0-9_])", head):
+            if _re.search(rf"(?<![A-Za-z0-9_])[FK]{k+1}(?![A-Za-z0-9_])", head):  # (named by its name or by its key)
                 flagged.add(f"F{k+1}")
     if flagged != expected:
         return fail("flagged-set", f"flagged {sorted(flagged)} (messages {recs}), expected exactly {sorted(expected)}")
@@ -519,8 +529,8 @@ def run_flows(u, res):
             if nf == 3 and sum(s != "clean" for s in states) > 2:
                 continue
             for exc in exc_sets:
-                for raise_error, verbose in ((False, False), (True, False), (False, True)):
-                    oc, f = run_flows_case(spec, list(states), exc, raise_error, verbose)
+                for raise_error, verbose, alias in ((False, False, False), (True, False, False), (False, True, False), (False, False, True), (True, False, True)):
+                    oc, f = run_flows_case(dict(spec, alias_keys=True) if alias else spec, list(states), exc, raise_error, verbose)
                     res["evals"] += 1
                     res["nontrivial"] += 1
                     res["outcomes"][oc] = res["outcomes"].get(oc, 0) + 1
